@@ -150,6 +150,8 @@ def cases(ctx):
                 for required in (False, True):
                     for builders in (False, True):
                         mem.append(mk(kind, v, src, nullable=nullable, required=required, builders=builders))
+                        if r.random() < 0.12:
+                            mem.append(mk(kind, v, src, nullable=nullable, required=required, builders=builders, deny=True))
     full = []
     for required in (False, True):
         for builders in (False, True):
